@@ -152,6 +152,19 @@ macro_rules! digest {
                 self.engine.reset(&$state);
             }
         }
+
+        // verification-only hooks (off by default): observe / preset the message length counter
+        #[cfg(feature = "verif-hooks")]
+        impl $ctxname {
+            /// (verification hook) number of bytes processed so far
+            pub fn verif_processed_bytes(&self) -> u128 {
+                self.engine.processed_bytes as u128
+            }
+            /// (verification hook) preset the number of bytes processed so far (truncated to the counter width)
+            pub fn verif_set_processed_bytes(&mut self, n: u128) {
+                self.engine.processed_bytes = n as _;
+            }
+        }
     };
 }
 
